@@ -146,7 +146,9 @@ class GreedySchedulingFromPlan(Scheduling):
         temporary_resources
 
         """
-        if cluster.is_occupied(machine):
+        # A machine already handed out in this round (or reserved) is no
+        # longer in temporary_resources: treat it like an occupied one
+        if cluster.is_occupied(machine) or machine not in temporary_resources:
             if temporary_resources:
                 # so greedy we pop the first resource available
                 machine = temporary_resources[0]
